@@ -431,7 +431,6 @@ impl Property for C02 {
             }
         }
         *stats.labels.entry("fixed/verifier-tree-changed-and-restored".into()).or_default() += 4;
-        let _ = Cursor::new(0);
         None
     }
     fn sample_view(&self, c: &Case) -> serde_json::Value {
